@@ -64,6 +64,30 @@ Proof.
       destruct Hp as (nd' & L' & K'). rewrite L in L'. inversion L'; subst. congruence.
 Qed.
 
+(* appending ".." to a path that resolves to a directory q: the result is the PARENT OF q (of what the path resolves to,
+   after every link before the ".." has been followed) - not the path with its last component dropped *)
+Lemma realpath_app_dotdot t : forall f l cur rest q,
+  realpath f l t cur rest = Some q -> dir_at t q ->
+  realpath (S f) l t cur (rest ++ [dotdot]) = Some (removelast q).
+Proof.
+  induction f as [|f IH]; intros l cur rest q H Hd; [discriminate|].
+  destruct rest as [|c rest'].
+  - cbn [realpath] in H. inversion H; subst. cbn [app realpath]. rewrite dot_not_dotdot, comp_eqb_refl.
+    destruct f; reflexivity.
+  - cbn [realpath] in H. change ((c :: rest') ++ [dotdot]) with (c :: (rest' ++ [dotdot])).
+    cbn [realpath]. fold realpath.
+    destruct (comp_eqb c dot); [apply IH; assumption|].
+    destruct (comp_eqb c dotdot); [apply IH; assumption|].
+    destruct (lookup t (cur ++ [c])) as [nd|] eqn:L; [|discriminate].
+    destruct (n_kind nd) as [len| |ab tg|] eqn:K.
+    + destruct rest'; [|discriminate]. inversion H; subst.
+      destruct Hd as (nd' & L' & K'). rewrite L in L'. inversion L'; subst. congruence.
+    + apply IH; assumption.
+    + destruct l as [|l']; [discriminate|]. rewrite app_assoc. apply IH; assumption.
+    + destruct rest'; [|discriminate]. inversion H; subst.
+      destruct Hd as (nd' & L' & K'). rewrite L in L'. inversion L'; subst. congruence.
+Qed.
+
 (* ---- canon / stat / absolute ---- *)
 Lemma rp_fuel_app t raw extra : rp_fuel t (raw ++ extra) = (length extra + rp_fuel t raw)%nat.
 Proof. unfold rp_fuel. rewrite app_length. lia. Qed.
@@ -78,6 +102,11 @@ Lemma canon_app_dir_up t raw x p :
   canon t (raw ++ [x; dotdot]) = Some p.
 Proof.
   unfold canon. intros H Hp Hd H1 H2. rewrite rp_fuel_app. cbn [length Nat.add]. apply realpath_app_dir_up; assumption.
+Qed.
+
+Theorem canon_app_dotdot t raw q : canon t raw = Some q -> dir_at t q -> canon t (raw ++ [dotdot]) = Some (removelast q).
+Proof.
+  unfold canon. intros H Hd. rewrite rp_fuel_app. cbn [length Nat.add]. apply realpath_app_dotdot; assumption.
 Qed.
 
 Lemma absolute_of_dir t raw p : canon t raw = Some p -> dir_at t p -> absolute t raw = p.
